@@ -140,7 +140,7 @@ def serviceAccepts (s : State) : State :=
   { s with axes := s.axes ++ s.pending, pending := [] }
 
 /-- body of the `while self.axes:` loop of `serviceAxes` for the popped duple `(cs, ca)` -/
-def admit (v : Version) (s : State) (cs : Nat) (ca : Addr) : Res :=
+def admitOne (v : Version) (s : State) (cs : Nat) (ca : Addr) : Res :=
   match s.socks[cs]? with
   | none => .raised .attributeError s              -- not reachable: accept queue holds existing sockets
   | some k =>
@@ -167,7 +167,7 @@ def admit (v : Version) (s : State) (cs : Nat) (ca : Addr) : Res :=
 def axesLoop (v : Version) (s : State) : List (Nat × Addr) → Res
   | [] => .ok { s with axes := [] }
   | (cs, ca) :: rest =>
-    match admit v { s with axes := rest } cs ca with
+    match admitOne v { s with axes := rest } cs ca with
     | .ok s' => axesLoop v s' rest
     | .raised e s' => .raised e s'
 
